@@ -634,6 +634,9 @@ func (e *env) run(line string) string {
 		}
 		e.dir = filepath.Join(base, fmt.Sprintf("c27node-%d-%d", os.Getpid(), nodeSeq))
 		e.node = chainkit.NewNodeCfgAt(e.dir, chainkit.NodeCfg{RecordSequence: e.rec, HighAllow: hi, LowAllow: lo})
+		if !e.node.WaitWalletRescan() {
+			out.Stat("wallet_rescan_wait_deadline", 1)
+		}
 		g := e.node.Genesis()
 		e.gtime = g.BlockTime
 		if fmt.Sprint(g.Difficulty) != w[5] || !bytes.Equal(g.Hash(e.cfg), e.producer.Genesis().Hash(e.cfg)) {
@@ -782,6 +785,9 @@ func (e *env) run(line string) string {
 		}
 		e.node.Close()
 		e.node = chainkit.NewNodeCfgAt(e.dir, chainkit.NodeCfg{RecordSequence: e.rec, HighAllow: e.hi, LowAllow: e.lo})
+		if !e.node.WaitWalletRescan() {
+			out.Stat("wallet_rescan_wait_deadline", 1)
+		}
 		e.log = append(e.log, "restart")
 		out.Stat("restarts", 1)
 		return e.tipStr()
